@@ -79,10 +79,13 @@ def plan(pid, tier, seed):
         S += [scen.profile_history(pid, base + i, tier) for i in range(n(tier, 40, 1500))]
         if pid in ("C10", "C14", "C20"):
             S += tlcgen.corpus_scenarios(seed, n(tier, 100, 600))
-        if pid == "C15" and tier == "thorough":
-            S += [scen.fee_cut_history(seed)]
         if pid == "C15":
-            S += [scen.fee_cut_history(seed, per_block=40, nblocks=3)]
+            # more than 10,000 fee-paying transactions on the best chain (13,600; the cut falls inside a block),
+            # and a small one
+            S += [scen.fee_cut_history(seed), scen.fee_cut_history(seed, per_block=40, nblocks=3)]
+        if pid == "C15" and tier == "thorough":
+            S += [scen.fee_cut_history(seed + k, per_block=pb, nblocks=nbk) for k, (pb, nbk) in
+                  enumerate([(2500, 4), (2501, 4), (5000, 2), (5001, 2), (3333, 3), (3334, 3), (9999, 1), (10000, 1), (10001, 1), (1999, 6)])]
         M += models.for_property(pid, tier)
     elif pid == "C16":
         S += [scen.cycles_history(base + i, nblocks=n(tier, 8, 14)) for i in range(n(tier, 40, 1500))]
